@@ -24,6 +24,9 @@ Section StyInd.
   Hypothesis HMap : forall o k v, P k -> P v -> P (SMap o k v).
   Hypothesis HRef : forall o r, P (SRef o r).
   Hypothesis HTuple : forall o mk fields, Forall (fun kv => P (snd kv)) fields -> P (STuple o mk fields).
+  Hypothesis HRel : forall o fields, Forall (fun kv => P (snd kv)) fields -> P (SRel o fields).
+  Hypothesis HTabRef : forall o a t, P (STabRef o a t).
+  Hypothesis HUnion : forall o alts, P (SUnion o alts).
   Fixpoint sty_ind' (t:sty) : P t :=
     match t with
     | SNoType o => HNo o | SPrim o p => HPrim o p | SEnum o i => HEnum o i
@@ -34,6 +37,12 @@ Section StyInd.
         HTuple o mk fields
           ((fix go (l:list (name*sty)) : Forall (fun kv => P (snd kv)) l :=
               match l with [] => Forall_nil _ | kv :: t => Forall_cons kv (sty_ind' (snd kv)) (go t) end) fields)
+    | SRel o fields =>
+        HRel o fields
+          ((fix go (l:list (name*sty)) : Forall (fun kv => P (snd kv)) l :=
+              match l with [] => Forall_nil _ | kv :: t => Forall_cons kv (sty_ind' (snd kv)) (go t) end) fields)
+    | STabRef o a t => HTabRef o a t
+    | SUnion o alts => HUnion o alts
     end.
 End StyInd.
 
@@ -56,7 +65,7 @@ Fixpoint wf_sty (t:sty) : Prop :=
   | SEnum _ items => NoDup (map fst items) /\ NoDup (map snd items)
   | SSet _ e | SSeq _ e | SList _ e => wf_sty e
   | SMap _ k v => wf_sty k /\ wf_sty v
-  | STuple _ _ fields =>
+  | STuple _ _ fields | SRel _ fields =>
       NoDup (map fst fields) /\
       (fix all (l:list (name*sty)) : Prop := match l with [] => True | kv :: t => wf_sty (snd kv) /\ all t end) fields
   | _ => True
@@ -115,7 +124,7 @@ Proof. intros o fields. unfold tup_fields. rewrite map_map. apply map_ext. intro
 
 Lemma map_type_oracle : forall o, perm_oracle o -> forall t, wf_sty t -> map_type o t = map_type ido t.
 Proof.
-  intros o Ho. induction t as [| | op items|op e IH|op e IH|op e IH|op k v IHk IHv| |op mk fields IH] using sty_ind';
+  intros o Ho. induction t as [| | op items|op e IH|op e IH|op e IH|op k v IHk IHv| |op mk fields IH|op fields IH| |] using sty_ind';
     intro Hwf; cbn [map_type wf_sty] in *; try reflexivity.
   - destruct Hwf as [Hk Hv]. f_equal.
     apply mset_all_perm.
@@ -127,6 +136,16 @@ Proof.
   - rewrite IH by assumption. reflexivity.
   - rewrite IH by assumption. reflexivity.
   - destruct Hwf. rewrite IHk, IHv by assumption. reflexivity.
+  - destruct Hwf as [Hnd Hall]. apply wf_fields_Forall in Hall. f_equal.
+    change (map (fun kv : name*sty => let (k,v) := kv in (k, map_type o v)) fields) with (tup_fields o fields).
+    change (map (fun kv : name*sty => let (k,v) := kv in (k, map_type ido v)) fields) with (tup_fields ido fields).
+    assert (E : tup_fields o fields = tup_fields ido fields).
+    { unfold tup_fields. apply map_ext_in. intros [k v] Hin.
+      rewrite Forall_forall in IH, Hall. pose proof (IH (k,v) Hin (Hall (k,v) Hin)) as X. cbn [snd] in X. rewrite X. reflexivity. }
+    rewrite E. apply mset_all_perm.
+    + apply range_keys_NoDup; [assumption|]. rewrite tup_fields_keys. assumption.
+    + etransitivity; [apply range_perm; [assumption|rewrite tup_fields_keys; assumption]|].
+      apply Permutation_sym, range_perm; [apply id_perm_oracle|rewrite tup_fields_keys; assumption].
   - destruct Hwf as [Hnd Hall]. apply wf_fields_Forall in Hall. f_equal.
     change (map (fun kv : name*sty => let (k,v) := kv in (k, map_type o v)) fields) with (tup_fields o fields).
     change (map (fun kv : name*sty => let (k,v) := kv in (k, map_type ido v)) fields) with (tup_fields ido fields).
@@ -154,11 +173,11 @@ Qed.
 
 Lemma map_type_wf : forall o t, wf_w (map_type o t).
 Proof.
-  intro o. induction t as [| | op items|op e IH|op e IH|op e IH|op k v IHk IHv| |op mk fields IH] using sty_ind';
+  intro o. induction t as [| | op items|op e IH|op e IH|op e IH|op k v IHk IHv| |op mk fields IH|op fields IH| |] using sty_ind';
     cbn [map_type wf_w map fst]; repeat split; try constructor; try assumption; try apply mset_all_keys_NoDup.
-  apply wf_props_Forall. apply mset_all_Forall_snd. rewrite Forall_forall. intros kv Hin.
-  apply entries_at_sub in Hin. apply in_map_iff in Hin. destruct Hin as [[k v] [<- Hin]].
-  rewrite Forall_forall in IH. exact (IH (k,v) Hin).
+  all: apply wf_props_Forall; apply mset_all_Forall_snd; rewrite Forall_forall; intros kv Hin;
+    apply entries_at_sub in Hin; apply in_map_iff in Hin; destruct Hin as [[k v] [<- Hin]];
+    rewrite Forall_forall in IH; exact (IH (k,v) Hin).
 Qed.
 
 (* ------------------------------------------------------------------ exportType: oracle independence with the sorts in place *)
@@ -508,7 +527,8 @@ Local Open Scope string_scope.
 
 Definition sty_opt (t:sty) : bool :=
   match t with
-  | SNoType o | SPrim o _ | SEnum o _ | SSet o _ | SSeq o _ | SList o _ | SMap o _ _ | SRef o _ | STuple o _ _ => o
+  | SNoType o | SPrim o _ | SEnum o _ | SSet o _ | SSeq o _ | SList o _ | SMap o _ _ | SRef o _ | STuple o _ _
+  | SRel o _ | STabRef o _ _ | SUnion o _ => o
   end.
 
 (* SPECIFICATION (independent of the code): the JSON type and format an OpenAPI 3 document shows for a Sysl primitive *)
@@ -534,7 +554,8 @@ Fixpoint presents (t:sty) (s:schema) {struct t} : Prop :=
   | SEnum _ items => s_ref s = 0%N /\ s_ty s = "string" /\ forall n, In n (s_enum s) <-> In n (map fst items)
   | SSet _ e | SSeq _ e | SList _ e => s_ref s = 0%N /\ s_ty s = "array" /\ exists i, s_items s = Some i /\ presents e i
   | SRef _ r => s_ref s = snd (get_ref_details r)
-  | STuple _ false fields =>
+  | STabRef _ _ ty => s_ref s = ty             (* an attribute of a table that refers to (a field of) table ty *)
+  | STuple _ false fields | SRel _ fields =>   (* !type and !table *)
       s_ref s = 0%N /\ s_ty s = "object" /\
       (fix each (l:list (name*sty)) : Prop :=
          match l with
@@ -543,7 +564,15 @@ Fixpoint presents (t:sty) (s:schema) {struct t} : Prop :=
          end) fields /\
       (forall f, In f (map fst (s_props s)) -> In f (map fst fields)) /\
       (forall f, In f (s_required s) <-> exists ft, In (f,ft) fields /\ sty_opt ft = false)
-  | _ => True
+  | STuple _ true fields =>                    (* json_map_key: the fields of the entry type, nothing said about `required` *)
+      s_ref s = 0%N /\ s_ty s = "object" /\
+      (fix each (l:list (name*sty)) : Prop :=
+         match l with
+         | [] => True
+         | kv :: t => (exists fs, mget (fst kv) (s_props s) = Some fs /\ presents (snd kv) fs) /\ each t
+         end) fields /\
+      (forall f, In f (map fst (s_props s)) -> In f (map fst fields))
+  | _ => True                                  (* no type, map, union (see presents_strict) *)
   end.
 
 Lemma each_Forall : forall (s:schema) fields,
@@ -581,56 +610,102 @@ Proof. intros. unfold tup_fields. apply map_ext. intros [k v]. reflexivity. Qed.
 Lemma prop_entries_eq : forall tb o l, prop_entries tb o l = map (fun kv => (fst kv, (fun v => (w_opt v, export_type tb o v)) (snd kv))) l.
 Proof. intros. unfold prop_entries. apply map_ext. intros [k v]. reflexivity. Qed.
 
-Lemma w_opt_map_type : forall o t, w_opt (map_type o t) = sty_opt t.
-Proof. intros o []; reflexivity. Qed.
+(* MapType copies the `?` of every type except that of a reference attribute of a table (STabRef) *)
+Definition plain_opt (t:sty) : Prop := match t with STabRef true _ _ => False | _ => True end.
+
+Lemma w_opt_map_type : forall o t, plain_opt t -> w_opt (map_type o t) = sty_opt t.
+Proof. intros o [] H; try reflexivity. cbn in *. destruct opt; [destruct H|reflexivity]. Qed.
+
+(* no table of the type has an optional reference attribute *)
+Fixpoint tabrefs_plain (t:sty) : Prop :=
+  match t with
+  | STabRef op _ _ => op = false
+  | SSet _ e | SSeq _ e | SList _ e => tabrefs_plain e
+  | STuple _ _ fields | SRel _ fields =>
+      (fix all (l:list (name*sty)) : Prop := match l with [] => True | kv :: t => tabrefs_plain (snd kv) /\ all t end) fields
+  | _ => True
+  end.
+
+Lemma tabrefs_fields_Forall : forall fields,
+  (fix all (l:list (name*sty)) : Prop := match l with [] => True | kv :: t => tabrefs_plain (snd kv) /\ all t end) fields <->
+  Forall (fun kv => tabrefs_plain (snd kv)) fields.
+Proof.
+  induction fields as [|kv t IH]; split; intro H.
+  - constructor.
+  - exact I.
+  - destruct H as [H1 H2]. constructor; [exact H1|apply IH, H2].
+  - inversion H as [|? ? H1 H2]; subst. split; [exact H1|apply IH, H2].
+Qed.
+
+Lemma tabrefs_plain_opt : forall t, tabrefs_plain t -> plain_opt t.
+Proof. intros [] H; try exact I. cbn in *. subst. exact I. Qed.
 
 Lemma mget_Some_iff_In {V} : forall (l:list (N*V)) k v, NoDup (map fst l) -> (mget k l = Some v <-> In (k,v) l).
 Proof. intros l k v Hnd. split; [apply mget_In|apply mget_of_In, Hnd]. Qed.
 
-(* the tuple arm, with the identity oracle *)
-Lemma tuple_schema : forall op fields, NoDup (map fst fields) ->
-  let s := export_type fixed3 ido (map_type ido (STuple op false fields)) in
+(* an arm that builds an object from t.Properties (tuple, relation, map), with the identity oracle *)
+Definition obj_fields (o:oracle) (fields:list (name*sty)) : list (name*wtype) := mset_all (range o (tup_fields o fields)) [].
+
+Lemma obj_schema : forall kind r sorted op fields, NoDup (map fst fields) ->
+  find_str kind (t_arms fixed3) = Some (A CObject None (XProps r sorted)) ->
+  let s := export_type fixed3 ido (WT kind op nor [] [] (obj_fields ido fields)) in
   s_ref s = 0%N /\ s_ty s = "object" /\
   (forall f, mget f (s_props s) = option_map (fun ft => export_type fixed3 ido (map_type ido ft)) (mget f fields)) /\
-  (forall f, In f (s_required s) <-> exists ft, In (f,ft) fields /\ sty_opt ft = false).
+  NoDup (map fst (s_props s)) /\ s_items s = None /\
+  (r = ReqNotFieldOptional -> sorted = true -> Forall (fun kv => plain_opt (snd kv)) fields ->
+   forall f, In f (s_required s) <-> exists ft, In (f,ft) fields /\ sty_opt ft = false).
 Proof.
-  intros op fields Hnd s. subst s. cbn [map_type].
-  change (map (fun kv : name*sty => let (k,v) := kv in (k, map_type ido v)) fields) with (tup_fields ido fields).
+  intros kind r sorted op fields Hnd Hfind s. subst s. unfold obj_fields.
   rewrite range_ido by (rewrite tup_fields_keys; exact Hnd).
   set (W := mset_all (tup_fields ido fields) []).
   assert (HW : forall f, mget f W = option_map (map_type ido) (mget f fields)).
   { intro f. unfold W. rewrite tup_fields_eq. apply mget_go_map, Hnd. }
   assert (HWk : NoDup (map fst W)) by apply mset_all_keys_NoDup.
-  cbn [export_type fixed3 tables_with t_arms arms_with app find_str String.eqb Ascii.eqb Bool.eqb a_extra a_ctor a_format A ctor_base fst snd].
-  change (map (fun kv : name*wtype => let (k,v) := kv in (k, (w_opt v, export_type (tables_with true true true) ido v))) W)
+  cbn [export_type]. rewrite Hfind. cbn [a_extra a_ctor a_format A ctor_base fst snd].
+  change (map (fun kv : name*wtype => let (k,v) := kv in (k, (w_opt v, export_type fixed3 ido v))) W)
     with (prop_entries fixed3 ido W).
   set (PS := prop_entries fixed3 ido W).
   assert (HPSk : NoDup (map fst PS)) by (unfold PS; rewrite prop_entries_keys; exact HWk).
   assert (HPS : forall f, mget f PS = option_map (fun v => (w_opt v, export_type fixed3 ido v)) (mget f W)).
   { intro f. unfold PS. rewrite prop_entries_eq. apply (mget_map (fun v : wtype => (w_opt v, export_type fixed3 ido v))). }
   rewrite range_ido by exact HPSk.
-  cbn [s_ref s_ty s_props s_required].
-  change (map (fun kv : name*wtype => let (k, v) := kv in (k, (w_opt v, export_type fixed3 ido v))) W) with PS.
-  repeat split.
+  cbn [s_ref s_ty s_props s_required s_items].
+  split; [reflexivity|]. split; [reflexivity|]. split; [|split; [|split; [reflexivity|]]].
   - intro f. rewrite (mget_go_map (fun x : bool*schema => snd x) PS f HPSk). rewrite HPS, HW.
     destruct (mget f fields); reflexivity.
-  - intro Hin. apply (proj1 (nsort_In _ _)) in Hin. apply in_map_iff in Hin. destruct Hin as [[k [b sc]] [<- Hin]].
-    apply filter_In in Hin. destruct Hin as [Hin Hb]. cbn [fst snd req_applies] in *.
-    apply (mget_Some_iff_In PS _ _ HPSk) in Hin. rewrite HPS, HW in Hin.
-    destruct (mget k fields) as [ft|] eqn:E; [|discriminate]. cbn [option_map] in Hin. inversion Hin; subst.
-    exists ft. split; [apply mget_In, E|]. rewrite w_opt_map_type in Hb. destruct (sty_opt ft); [discriminate|reflexivity].
-  - intros [ft [Hin Ho]]. apply (proj2 (nsort_In _ _)). apply in_map_iff.
-    exists (f, (sty_opt ft, export_type fixed3 ido (map_type ido ft))). split; [reflexivity|].
-    apply filter_In. split.
-    + apply (mget_Some_iff_In PS _ _ HPSk). rewrite HPS, HW. rewrite (mget_of_In fields f ft Hnd Hin). cbn [option_map].
-      rewrite w_opt_map_type. reflexivity.
-    + cbn [fst snd req_applies]. rewrite Ho. reflexivity.
+  - apply mset_all_keys_NoDup.
+  - intros -> -> Hpl. rewrite Forall_forall in Hpl. intro f. split.
+    + intro Hin. apply (proj1 (nsort_In _ _)) in Hin. apply in_map_iff in Hin. destruct Hin as [[k [b sc]] [<- Hin]].
+      apply filter_In in Hin. destruct Hin as [Hin Hb]. cbn [fst snd req_applies] in *.
+      apply (mget_Some_iff_In PS _ _ HPSk) in Hin. rewrite HPS, HW in Hin.
+      destruct (mget k fields) as [ft|] eqn:E; [|discriminate]. cbn [option_map] in Hin. inversion Hin; subst.
+      exists ft. split; [apply mget_In, E|]. rewrite w_opt_map_type in Hb by (apply (Hpl (k,ft)), mget_In, E).
+      destruct (sty_opt ft); [discriminate|reflexivity].
+    + intros [ft [Hin Ho]]. apply (proj2 (nsort_In _ _)). apply in_map_iff.
+      exists (f, (sty_opt ft, export_type fixed3 ido (map_type ido ft))). split; [reflexivity|].
+      apply filter_In. split.
+      * apply (mget_Some_iff_In PS _ _ HPSk). rewrite HPS, HW. rewrite (mget_of_In fields f ft Hnd Hin). cbn [option_map].
+        rewrite w_opt_map_type by (apply (Hpl (f,ft)), Hin). reflexivity.
+      * cbn [fst snd req_applies]. rewrite Ho. reflexivity.
 Qed.
 
-Lemma presents_ido : forall t, wf_sty t -> presents t (export_type fixed3 ido (map_type ido t)).
+Lemma find_tuple : find_str "tuple" (t_arms fixed3) = Some (A CObject None (XProps ReqNotFieldOptional true)).
+Proof. reflexivity. Qed.
+Lemma find_relation : find_str "relation" (t_arms fixed3) = Some (A CObject None (XProps ReqNotFieldOptional true)).
+Proof. reflexivity. Qed.
+Lemma find_map : find_str "map" (t_arms fixed3) = Some (A CObject None (XProps ReqNone false)).
+Proof. reflexivity. Qed.
+
+Lemma map_type_tuple : forall op mk fields,
+  map_type ido (STuple op mk fields) = WT (if mk then "map" else "tuple") op nor [] [] (obj_fields ido fields).
+Proof. reflexivity. Qed.
+Lemma map_type_rel : forall op fields, map_type ido (SRel op fields) = WT "relation" op nor [] [] (obj_fields ido fields).
+Proof. reflexivity. Qed.
+
+Lemma presents_ido : forall t, wf_sty t -> tabrefs_plain t -> presents t (export_type fixed3 ido (map_type ido t)).
 Proof.
-  induction t as [| op p| op items|op e IH|op e IH|op e IH|op k v IHk IHv| |op mk fields IH] using sty_ind';
-    intro Hwf; try exact I.
+  induction t as [| op p| op items|op e IH|op e IH|op e IH|op k v IHk IHv| |op mk fields IH|op fields IH|op ap ty|op alts] using sty_ind';
+    intros Hwf Htr; try exact I.
   - (* primitive *)
     cbn [presents map_type]. unfold prim_json.
     repeat match goal with |- context [String.eqb p ?c] => destruct (String.eqb_spec p c) as [->|?]; [vm_compute; repeat split|] end.
@@ -657,39 +732,65 @@ Proof.
       assert (Hperm : Permutation (entries_at E (nsort (map fst E))) E).
       { etransitivity; [apply entries_at_perm, Permutation_sym, nsort_perm_self|]. rewrite entries_at_self by exact HEk. apply Permutation_refl. }
       apply (Permutation_in _ (Permutation_sym Hperm)). exact HinE.
-  - (* set *) cbn [presents map_type wf_sty] in *. vm_compute (find_str "set" (t_arms fixed3)).
+  - (* set *) cbn [presents map_type wf_sty tabrefs_plain] in *. vm_compute (find_str "set" (t_arms fixed3)).
     cbn [export_type fixed3 tables_with t_arms arms_with app find_str String.eqb Ascii.eqb Bool.eqb a_extra a_ctor a_format A ctor_base fst snd s_ref s_ty s_items].
-    repeat split. eexists. split; [reflexivity|apply IH, Hwf].
-  - (* sequence *) cbn [presents map_type wf_sty] in *.
+    repeat split. eexists. split; [reflexivity|apply IH; [exact Hwf|exact Htr]].
+  - (* sequence *) cbn [presents map_type wf_sty tabrefs_plain] in *.
     cbn [export_type fixed3 tables_with t_arms arms_with app find_str String.eqb Ascii.eqb Bool.eqb a_extra a_ctor a_format A ctor_base fst snd s_ref s_ty s_items].
-    repeat split. eexists. split; [reflexivity|apply IH, Hwf].
-  - (* list *) cbn [presents map_type wf_sty] in *.
+    repeat split. eexists. split; [reflexivity|apply IH; [exact Hwf|exact Htr]].
+  - (* list *) cbn [presents map_type wf_sty tabrefs_plain] in *.
     cbn [export_type fixed3 tables_with t_arms arms_with app find_str String.eqb Ascii.eqb Bool.eqb a_extra a_ctor a_format A ctor_base fst snd s_ref s_ty s_items].
-    repeat split. eexists. split; [reflexivity|apply IH, Hwf].
+    repeat split. eexists. split; [reflexivity|apply IH; [exact Hwf|exact Htr]].
   - (* reference *) cbn [presents map_type]. reflexivity.
-  - (* tuple *)
-    destruct mk; [exact I|]. destruct Hwf as [Hnd Hall]. apply wf_fields_Forall in Hall.
-    destruct (tuple_schema op fields Hnd) as [H1 [H2 [H3 H4]]].
-    cbn [presents]. split; [exact H1|]. split; [exact H2|]. split; [|split; [|exact H4]].
+  - (* tuple, json_map_key tuple *)
+    destruct Hwf as [Hnd Hall]. apply wf_fields_Forall in Hall. rewrite map_type_tuple.
+    cbn [tabrefs_plain] in Htr. apply tabrefs_fields_Forall in Htr.
+    assert (Hpl : Forall (fun kv => plain_opt (snd kv)) fields).
+    { rewrite Forall_forall in *. intros kv Hkv. apply tabrefs_plain_opt, (Htr kv Hkv). }
+    assert (Hf : forall s, (forall f, mget f (s_props s) = option_map (fun ft => export_type fixed3 ido (map_type ido ft)) (mget f fields)) ->
+                 NoDup (map fst (s_props s)) ->
+                 Forall (fun kv => exists fs, mget (fst kv) (s_props s) = Some fs /\ presents (snd kv) fs) fields /\
+                 (forall f, In f (map fst (s_props s)) -> In f (map fst fields))).
+    { intros s H3 Hk. split.
+      - rewrite Forall_forall in *. intros [f ft] Hin. cbn [fst snd].
+        exists (export_type fixed3 ido (map_type ido ft)). split.
+        + rewrite H3. rewrite (mget_of_In fields f ft Hnd Hin). reflexivity.
+        + apply (IH (f,ft) Hin); [exact (Hall (f,ft) Hin)|exact (Htr (f,ft) Hin)].
+      - intros f Hin. apply in_map_iff in Hin. destruct Hin as [[k sc] [<- Hin]]. cbn [fst].
+        apply (mget_Some_iff_In _ _ _ Hk) in Hin. rewrite H3 in Hin.
+        destruct (mget k fields) as [ft|] eqn:E; [|discriminate]. apply mget_In in E.
+        apply in_map_iff. exists (k, ft). split; [reflexivity|exact E]. }
+    destruct mk.
+    + destruct (obj_schema "map" _ _ op fields Hnd find_map) as [H1 [H2 [H3 [Hk [_ _]]]]].
+      destruct (Hf _ H3 Hk) as [F1 F2].
+      cbn [presents]. split; [exact H1|]. split; [exact H2|]. split; [apply each_Forall, F1|exact F2].
+    + destruct (obj_schema "tuple" _ _ op fields Hnd find_tuple) as [H1 [H2 [H3 [Hk [_ H4]]]]].
+      destruct (Hf _ H3 Hk) as [F1 F2].
+      cbn [presents]. split; [exact H1|]. split; [exact H2|]. split; [apply each_Forall, F1|]. split; [exact F2|exact (H4 eq_refl eq_refl Hpl)].
+  - (* relation *)
+    destruct Hwf as [Hnd Hall]. apply wf_fields_Forall in Hall. rewrite map_type_rel.
+    cbn [tabrefs_plain] in Htr. apply tabrefs_fields_Forall in Htr.
+    assert (Hpl : Forall (fun kv => plain_opt (snd kv)) fields).
+    { rewrite Forall_forall in *. intros kv Hkv. apply tabrefs_plain_opt, (Htr kv Hkv). }
+    destruct (obj_schema "relation" _ _ op fields Hnd find_relation) as [H1 [H2 [H3 [Hk [_ H4]]]]].
+    cbn [presents]. split; [exact H1|]. split; [exact H2|]. split; [|split; [|exact (H4 eq_refl eq_refl Hpl)]].
     + apply each_Forall. rewrite Forall_forall in *. intros [f ft] Hin. cbn [fst snd].
       exists (export_type fixed3 ido (map_type ido ft)). split.
       * rewrite H3. rewrite (mget_of_In fields f ft Hnd Hin). reflexivity.
-      * apply (IH (f,ft) Hin), (Hall (f,ft) Hin).
+      * apply (IH (f,ft) Hin); [exact (Hall (f,ft) Hin)|exact (Htr (f,ft) Hin)].
     + intros f Hin. apply in_map_iff in Hin. destruct Hin as [[k sc] [<- Hin]]. cbn [fst].
-      assert (Hk : NoDup (map fst (s_props (export_type fixed3 ido (map_type ido (STuple op false fields)))))).
-      { cbn [map_type]. cbn [export_type fixed3 tables_with t_arms arms_with app find_str String.eqb Ascii.eqb Bool.eqb a_extra a_ctor a_format A ctor_base fst snd s_props].
-        apply mset_all_keys_NoDup. }
       apply (mget_Some_iff_In _ _ _ Hk) in Hin. rewrite H3 in Hin.
       destruct (mget k fields) as [ft|] eqn:E; [|discriminate]. apply mget_In in E.
       apply in_map_iff. exists (k, ft). split; [reflexivity|exact E].
+  - (* reference attribute of a table *) reflexivity.
 Qed.
 
 (* HEADLINE (types): under any iteration order, every type of the application is a schema of the document, and that
    schema presents the type *)
 Theorem export_complete_types : forall o a d, perm_oracle o -> wf_app a -> export3_with fixed3 o a = Ok d ->
-  forall n t, In (n,t) (a_types a) -> exists s, mget n (d_schemas d) = Some s /\ presents t s.
+  forall n t, In (n,t) (a_types a) -> tabrefs_plain t -> exists s, mget n (d_schemas d) = Some s /\ presents t s.
 Proof.
-  intros o a d Ho Hw He n t Hin.
+  intros o a d Ho Hw He n t Hin Htr.
   rewrite (export_order_independent o ido a Ho id_perm_oracle Hw) in He.
   pose proof Hw as [Htk [Htw _]].
   unfold export3_with in He. rewrite generate3_eq, build_app_eq in He. cbn [wa_types wa_endpoints] in He.
@@ -701,7 +802,7 @@ Proof.
     rewrite (mget_go_map (export_type fixed3 ido)) by apply mset_all_keys_NoDup.
     rewrite (mget_go_map (map_type ido)) by exact Htk.
     rewrite (mget_of_In _ _ _ Htk Hin). reflexivity.
-  - apply presents_ido. rewrite Forall_forall in Htw. exact (Htw (n,t) Hin).
+  - apply presents_ido; [|exact Htr]. rewrite Forall_forall in Htw. exact (Htw (n,t) Hin).
 Qed.
 
 (* ------------------------------------------------------------------ endpoints: every endpoint is an operation *)
@@ -753,7 +854,7 @@ Fixpoint tdepth (t:sty) : nat :=
   match t with
   | SSet _ e | SSeq _ e | SList _ e => S (tdepth e)
   | SMap _ k v => S (Nat.max (tdepth k) (tdepth v))
-  | STuple _ _ fields => S ((fix mx (l:list (name*sty)) : nat := match l with [] => 0%nat | kv :: t => Nat.max (tdepth (snd kv)) (mx t) end) fields)
+  | STuple _ _ fields | SRel _ fields => S ((fix mx (l:list (name*sty)) : nat := match l with [] => 0%nat | kv :: t => Nat.max (tdepth (snd kv)) (mx t) end) fields)
   | _ => 1%nat
   end.
 Fixpoint wdepth (t:wtype) : nat :=
@@ -801,12 +902,12 @@ Proof. induction props as [|x t IH]; [reflexivity|]. cbn [maxof fold_right]. rew
 
 Lemma map_type_depth : forall o t, (wdepth (map_type o t) <= tdepth t)%nat.
 Proof.
-  intro o. induction t as [| | op items|op e IH|op e IH|op e IH|op k v IHk IHv| |op mk fields IH] using sty_ind';
+  intro o. induction t as [| | op items|op e IH|op e IH|op e IH|op k v IHk IHv| |op mk fields IH|op fields IH| |] using sty_ind';
     cbn [map_type wdepth tdepth]; try lia.
-  rewrite tdepth_fields, wdepth_props. apply le_n_S. apply Nat.max_lub; [lia|].
-  apply maxof_le. intros kv Hin. destruct (mset_all_In_inv _ _ _ Hin) as [E|[]].
-  apply entries_at_sub in E. apply in_map_iff in E. destruct E as [[k v] [<- E]]. cbn [snd].
-  rewrite Forall_forall in IH. etransitivity; [apply (IH (k,v) E)|]. apply (maxof_ge (fun kv => tdepth (snd kv)) fields (k,v) E).
+  all: rewrite tdepth_fields, wdepth_props; apply le_n_S; apply Nat.max_lub; [lia|];
+    apply maxof_le; intros kv Hin; destruct (mset_all_In_inv _ _ _ Hin) as [E|[]];
+    apply entries_at_sub in E; apply in_map_iff in E; destruct E as [[k v] [<- E]]; cbn [snd];
+    rewrite Forall_forall in IH; (etransitivity; [apply (IH (k,v) E)|]); apply (maxof_ge (fun kv => tdepth (snd kv)) fields (k,v) E).
 Qed.
 
 Lemma export_type_depth : forall tb o t, (sdepth (export_type tb o t) <= wdepth t)%nat.
